@@ -1889,6 +1889,9 @@ fn c21(args: &Args) {
                 if scan.headers > 0 {
                     ev.nontrivial(&c.input());
                 }
+                if scan.headers > 0 && ev.want_sample() && ev.evaluations % 997 == 1 {
+                    ev.sample(json!({"class": c.class, "case": if c.input().len() <= 120 { c.json() } else { json!({"prefix": bj(&c.prefix), "repeat": c.repeat, "body_len": c.body.len()}) }}));
+                }
                 match j {
                     C21Judgement::Fine(v) => ev.class(c21_verdict_name(v)),
                     C21Judgement::Kf(id) => {
@@ -2823,6 +2826,9 @@ fn c24(args: &Args) {
             }
             let (class, kf, fail) = memo.get(&key).unwrap().clone();
             ev.class(class);
+            if has_write && ev.want_sample() && ev.evaluations % 1499 == 1 {
+                ev.sample(json!({"graph": gi, "response": resp, "handed_back": stmt, "verdict": class}));
+            }
             if kf {
                 ev.kf_hit("KF-C24-1");
                 if ev.want_sample() && ev.kf_hits.get("KF-C24-1").copied().unwrap_or(0) % 211 == 1 {
